@@ -152,6 +152,16 @@ CHECKS = {
         note="Partial: which article is recorded for which definition is evaluator behaviour (end-to-end only). An endless-definition defect was repaired by a fix: commit.",
         technique="Lean 4 proof (row and visibility-flag lemmas) + differential tok stream + end-to-end definition-info comparison",
     ),
+    "C23": dict(
+        category="proof",
+        text="Soundness of the completion filter, proved in Lean for every signature table entry, every inheritance graph (cyclic ones included), every captured target and any fuel: a listed signature is never of class \"\"/Kernel, "
+             "is of the receiver's class, of the class of the cursor's context, or of an ancestor reachable through ClassInheritanceMap with the receiver's static flag; a private signature only for the class of the cursor's context; for an object-valued receiver nothing private and nothing of the wrong kind (object_receiver_sound). "
+             "The model (isSuggest, isParentClass, calculateObjectClassAndIsStatic, isSuggestForKernelOrObjectClass) is tied by a differential stream against the real functions (verif hooks in cmd/) on generated graphs, target recipes and signatures. "
+             "Completeness (every callable method IS listed) and which T a row captures are evaluator behaviour: end-to-end on generated hierarchies (superclass chains, include/extend, private/protected sections, class << self) and configured Integer receivers, instance and class receivers.",
+        design="DESIGN.md §4 C23",
+        note="Partial: completeness only end-to-end; Object/Kernel methods (class \"\") are listed only through the lower-case receiver rule and are outside the expectation; names compared on their first byte as the Go code does. A defect (object built by `new` listing class/private methods) was repaired by a fix: commit.",
+        technique="Lean 4 proof (induction on fuel, mutual well-founded recursion) + differential stream over hooks + end-to-end completion comparison",
+    ),
     "C17": dict(
         category="proof",
         text="Scope core on the Go-map model of TFrame: Lean proves for EVERY sequence of writes performed inside a block that a key absent from the entry snapshot (and not written back) is absent after the block, that outer variables keep what the block assigned to them, that a shadowed variable gets its saved value back (distinct restore keys), "
